@@ -624,6 +624,13 @@ func (n *ndWriter) write(v any) {
 	n.mu.Unlock()
 }
 
+// soft hands the buffered records to the operating system (they survive the death of the process) without syncing the disk.
+func (n *ndWriter) soft() {
+	n.mu.Lock()
+	n.w.Flush()
+	n.mu.Unlock()
+}
+
 func (n *ndWriter) flush() {
 	n.mu.Lock()
 	n.w.Flush()
